@@ -21,7 +21,6 @@ import (
 	"fmt"
 	"io"
 	"strconv"
-	"strings"
 
 	"github.com/megaease/easegress/pkg/context"
 	"github.com/megaease/easegress/pkg/filters"
@@ -187,10 +186,11 @@ func (ra *ResponseAdaptor) Handle(ctx *context.Context) string {
 }
 
 func (ra *ResponseAdaptor) compress(resp *httpprot.Response) string {
-	for _, ce := range resp.HTTPHeader().Values(keyContentEncoding) {
-		if strings.Contains(ce, "gzip") {
-			return ""
-		}
+	// A response which already carries a content coding (gzip or any other)
+	// is left as it is: compressing it again and labelling it "gzip" would
+	// hide the original coding from the client.
+	if resp.HTTPHeader().Get(keyContentEncoding) != "" {
+		return ""
 	}
 
 	zr := readers.NewGZipCompressReader(resp.GetPayload())
